@@ -8,12 +8,12 @@ those definitions changes the normal forms the rules compare.
 Base atoms:  rate                      bits per voxel
              b0 b1 b2                  blockshape[k] / 4   (constant 1 in '4' layouts, >= 2 otherwise)
              B0 B1 B2                  number of blocks along axis k  (= ceil(n_k / blockshape[k]))
-             s0 s1 s2                  padding slack:  n_k = blockshape[k] * B_k - s_k,  0 <= s_k < blockshape[k]
+             n_k.u n_k.r               digits of the real extent:  n_k - 1 = blockshape[k]*(B_k - 1) + 4*n_k.u + n_k.r
 """
 import ast
 from .core import U, AnalysisError
 from .algebra import Poly, Atoms, C, A
-from .symeval import Interp, Obj, Opaque, Tup, State, Bytes, Buf, BufSlice, same
+from .symeval import Interp, Obj, Opaque, Tup, State, Bytes, Buf, BufSlice, Axis, Packed, same
 
 # layout modes: which blockshape components equal 4 (b_k == 1)
 MODES_3D = [(True, True, False), (True, True, True), (False, False, True), (False, False, False),
@@ -59,9 +59,18 @@ class Model:
         self.b = b
         self.bs = [C(1) if b[k] is None else 4 * b[k] for k in range(3)]
         self.B = [C(1) if b[k] is None else T.declare('B%d' % k, 1, None, kind='extent', axis=k) for k in range(3)]
-        self.s = [C(0) if b[k] is None else T.declare('s%d' % k, 0, self.bs[k], kind='digit', axis=k, slack=True)
-                  for k in range(3)]
-        self.N = [self.bs[k] * self.B[k] - self.s[k] for k in range(3)]
+        # real extent of axis k in digits:  N_k - 1 = blockshape[k]*(B_k - 1) + 4*n_k.u + n_k.r   (n_k.u < b_k, n_k.r < 4)
+        self.N = []
+        for k in range(3):
+            if b[k] is None:
+                self.N.append(C(1))
+                continue
+            nr = T.declare('n%d.r' % k, 0, 4, kind='digit', axis=k, slack=True, var='n%d' % k)
+            low = nr
+            if b[k] != C(1):
+                nu = T.declare('n%d.u' % k, 0, b[k], kind='digit', axis=k, slack=True, var='n%d' % k)
+                low = 4 * nu + nr
+            self.N.append(self.bs[k] * self.B[k] - self.bs[k] + low + 1)
         seeds = {
             'n_ilines': self.N[0] if dim == '3d' else C(0),
             'n_xlines': self.N[1] if dim == '3d' else C(0),
@@ -76,7 +85,11 @@ class Model:
             'n_header_arrays': T.declare('NHA', 0, None, kind='extent'),
             'file': Opaque('file'),
             'headerbytes': Opaque('headerbytes'),
+            'zslices': Axis(2, self.N[2]),
         }
+        if dim == '3d':
+            seeds['ilines'] = Axis(0, self.N[0])
+            seeds['xlines'] = Axis(1, self.N[1])
         dim_ = dim
 
         def p_axis(name, dim_=dim_):
@@ -91,7 +104,10 @@ class Model:
                                          'utils.read_range_file': self._read_range,
                                          'utils.read_range_blob': self._read_range,
                                          'utils.coord_to_index': self._coord_to_index,
-                                         'utils.get_chunk_cache_size': self._opaque_call})
+                                         'utils.get_chunk_cache_size': self._opaque_call,
+                                         'utils.int_to_bytes': self._codec, 'utils.signed_int_to_bytes': self._codec,
+                                         'utils.np_float_to_bytes': self._codec,
+                                         'utils.np_float_to_bytes_signed': self._codec})
         self.interp.bs = [None if b[k] is None else self.bs[k] for k in range(3)]
         cls = program.cls(reader_cls)
         self.reader = Obj(cls, name='reader')
@@ -132,6 +148,10 @@ class Model:
         nm = 'idx(%s)' % U(call_args[0]) if call_args else 'idx'
         return ip.digit_var(nm, ax)
 
+    def _codec(self, ip, node, st, func, selfobj, tgt=None, recv=None, call_args=(), keywords=()):
+        v = ip.eval(call_args[0], st, func, selfobj) if call_args else None
+        return Packed(v, tgt.name if tgt is not None else '?')
+
     def _opaque_call(self, ip, node, st, func, selfobj, **kw):
         return Opaque(U(node))
 
@@ -149,6 +169,10 @@ class Model:
                 env[p] = v(self) if callable(v) else v
                 continue
             ax = self.p_axis(p)
+            if p.endswith('_range') and ax is not None and self.interp.bs[ax] is not None and \
+                    (params is None or params.get('__ranges__', True)):
+                env[p] = Tup([ip.digit_var(p + '.lo', ax), ip.digit_var(p + '.hi', ax)])
+                continue
             if p in f.defaults and isinstance(f.defaults[p], ast.Constant) and f.defaults[p].value in (None, True, False):
                 env[p] = Opaque(p)       # optional flag / optional bound: left undecided, forks
             elif ax is not None and self.interp.bs[ax] is not None:
